@@ -74,6 +74,9 @@ fn main() {
         "C16" => props::c15::C16,
         "C17" => props::c17::C17,
         "C18" => props::c18::C18,
+        "C19" => props::runtime::C19,
+        "C20" => props::runtime::C20,
+        "C21" => props::runtime::C21,
         "C31" => props::small::C31,
         "C32" => props::small::C32,
     );
